@@ -661,7 +661,7 @@ pub fn render_query(q: &Q) -> Value {
 // ------------------------------------------------------------------------------------------------
 
 fn e4(x: f32) -> i64 {
-  (x as f64 * 10000.0).round() as i64
+  ((x as f64 * 10000.0).round() as i64).clamp(-2_000_000_000, 2_000_000_000)
 }
 
 fn field_kind(schema: &Schema, f: &str) -> &'static str {
